@@ -203,7 +203,7 @@ def check(ctx: Ctx) -> None:
                         why = verdict(T, res)
                         if why is None and res and res[0][0] == "const":
                             want = {("if", ("truthy", "v")): True, ("ifnot", ("truthy", "v")): False}.get(guard, None if T == "NoneType" else "?")
-                            if res[0][1] != want:
+                            if type(res[0][1]) is not type(want) or res[0][1] != want:
                                 why = f"loads back the constant {res[0][1]!r}"
                     except Mismatch as ex:
                         why, res = str(ex), None
